@@ -256,6 +256,12 @@ fn state_search(rep: &mut Report, tier: Tier, property: &str) {
         }
     }
     rep.bounds["state_search_runs"] = J::Array(runs_done);
+    for (i, k) in KINDS.iter().enumerate() {
+        let n = KIND_COUNT[i].load(Relaxed);
+        if n > 0 {
+            rep.tally.outcome_n(&format!("op:{k}"), n);
+        }
+    }
 }
 
 fn std_hash<T: std::hash::Hash>(t: &T) -> u64 {
